@@ -126,10 +126,11 @@ Definition allow_disc (o : obs) : list disc :=
     | false, true => [(a, p, "allow-denied-despite-whitelist")]
     | _, _ => [] end)%string (all_pairs (map fst (o_allowed o)) uperms).
 
-(* the lookup indexes equal the sets recomputed from the actor and role records *)
-Definition spec_ipa (o : obs) : list (Z * Z) := flat_map (fun e => map (fun p => (p, fst e)) (wl (a_perms (snd e)))) (o_actors o).
-Definition spec_ira (o : obs) : list (Z * Z) := flat_map (fun e => map (fun r => (r, fst e)) (a_roles (snd e))) (o_actors o).
-Definition spec_ipr (o : obs) : list (Z * Z) := flat_map (fun e => map (fun p => (p, fst e)) (wl (snd e))) (o_roles o).
+(* the lookup indexes equal the sets recomputed from the actor and role records ([canon]: each key of a
+   dumped record list once -- the store yields every key once) *)
+Definition spec_ipa (o : obs) : list (Z * Z) := flat_map (fun e => map (fun p => (p, fst e)) (wl (a_perms (snd e)))) (canon [] (o_actors o)).
+Definition spec_ira (o : obs) : list (Z * Z) := flat_map (fun e => map (fun r => (r, fst e)) (a_roles (snd e))) (canon [] (o_actors o)).
+Definition spec_ipr (o : obs) : list (Z * Z) := flat_map (fun e => map (fun p => (p, fst e)) (wl (snd e))) (canon [] (o_roles o)).
 Definition tag (k : string) (l : list (Z * Z)) : list disc := map (fun x => (x, k)) l.
 Definition index_disc (o : obs) : list disc :=
   tag "index-perm-addr-missing"%string (pdiff (spec_ipa o) (o_ipa o)) ++ tag "index-perm-addr-stale"%string (pdiff (o_ipa o) (spec_ipa o))
@@ -137,7 +138,7 @@ Definition index_disc (o : obs) : list disc :=
   ++ tag "index-perm-role-missing"%string (pdiff (spec_ipr o) (o_ipr o)) ++ tag "index-perm-role-stale"%string (pdiff (o_ipr o) (spec_ipr o)).
 
 (* the eligible voters of a permission are exactly the actors whose own or role whitelist carries it *)
-Definition spec_voters (o : obs) (p : Z) : list Z := filter (fun a => spec_whitelisted o a p) (map fst (o_actors o)).
+Definition spec_voters (o : obs) (p : Z) : list Z := filter (fun a => spec_whitelisted o a p) (map fst (canon [] (o_actors o))).
 Definition voters_disc (o : obs) : list disc :=
   flat_map (fun e => let p := fst e in
     match snd e with
